@@ -28,6 +28,20 @@ RespellOK(e) ==
      /\ e.ok = acc
      /\ (acc /\ e.ok => e.wire = EncName(p.labels))
 
+\* packseq: names packed one behind the other into one buffer over one compression map, beginning at e.start (any offset:
+\* PackDomainName / PackRR are public).  Each is accepted exactly when it is a valid fully qualified name, and the octets
+\* written for it - labels and, possibly, a pointer to what was written before - stand for exactly the labels the one reader
+\* of text reads, octet for octet (Names!WireDenotesName), whatever went before and wherever the sequence began.
+\* The octets before e.start are not the packer's: zeros here.
+PackSeqOK(e) ==
+  LET buf == [i \in 1..e.start |-> 0] \o e.wire IN
+  \A k \in 1..Len(e.items) :
+    LET it == e.items[k]  p == Parse(it.text)  acc == p.st = "ok" /\ p.fq /\ ValidName(p.labels) IN
+    \/ p.st = "undef"
+    \/ /\ it.ok = acc
+       /\ (it.ok => /\ it.end <= Len(buf)
+                    /\ WireDenotesName(Sub(buf, 1, it.end), it.off, it.end, p.labels))
+
 HelpersOK(e) ==
   LET t == e.text  p == Parse(t) IN
   /\ p.st = "ok"
@@ -48,6 +62,7 @@ Judge(e) == CASE e.ev = "unpack"  -> UnpackOK(e)
               [] e.ev = "respell" -> RespellOK(e)
               [] e.ev = "helpers" -> HelpersOK(e)
               [] e.ev = "compare" -> CompareOK(e)
+              [] e.ev = "packseq" -> PackSeqOK(e)
               [] OTHER -> FALSE
 
 Init == l = 1 /\ HWInit
